@@ -148,18 +148,40 @@ def landBR (old : Option CBr) (new : Option RolloutSM.BR) (wl : Option CWl) : Op
   | none, some b => (some (createdBr b), wl.map fun w => if w.owner = .this then { w with owner := .other } else w)
   | some c, some b => (updatedBr c b, wl)
 
+/-- the only workload write of the Rollout controller: the in-progress annotation is removed (metadata: no generation bump) -/
+def annoLand (wl : Option CWl) (v : Option RolloutSM.WL) : Option CWl :=
+  match wl, v with
+  | some w, some v => some { w with inProgressAnno := v.inProgressAnno }
+  | w, _ => w
+
+/-- how the result of one Rollout reconcile lands in the joint state -/
+def landRo (s : CS) (r : RolloutSM.StepResult) : CS :=
+  { gone := r.roGone, ro := r.w.ro, wl := (landBR s.br r.w.br (annoLand s.wl r.w.wl)).2,
+    br := (landBR s.br r.w.br (annoLand s.wl r.w.wl)).1, net := r.w.net, mem := r.w.mem }
+
 /-- `.ro`: one Rollout reconcile -/
 def stepRo (s : CS) : Option CS :=
   if s.gone then some s else
   match RolloutSM.reconcile (roWorld s) with
   | .panic => none
-  | .val r =>
-    -- the only workload write of the Rollout controller: the in-progress annotation is removed (metadata: no generation bump)
-    let wl1 := match s.wl, r.w.wl with
-      | some w, some v => some { w with inProgressAnno := v.inProgressAnno }
-      | w, _ => w
-    let l := landBR s.br r.w.br wl1
-    some { gone := r.roGone, ro := r.w.ro, wl := l.2, br := l.1, net := r.w.net, mem := r.w.mem }
+  | .val r => some (landRo s r)
+
+/-- the status the executor wrote; `observedGeneration` follows `metadata.generation` -/
+def stLand (b : CBr) (eb : Executor.BR) : CBr :=
+  { b with hasFinalizer := eb.hasFinalizer, st := eb.status, observedGeneration := b.generation,
+           observedRolloutID := if eb.status.rolloutIDSame then b.rolloutID else b.observedRolloutID }
+
+/-- the CloneSet after the executor's patch: `metadata.generation` is bumped when the spec changed -/
+def wlLand (wl : Option CWl) (ew : Option Executor.Workload) : Option CWl :=
+  match wl, ew with
+  | some w, some ew =>
+    some { w with partition := ew.partition, paused := ew.paused, owner := ew.owner,
+                  generation := if ew.partition ≠ w.partition ∨ ew.paused ≠ w.paused then w.generation + 1 else w.generation }
+  | w, _ => w
+
+/-- how the result of one BatchRelease reconcile lands in the joint state -/
+def landBr (s : CS) (b : CBr) (o : Executor.StepOut) : CS :=
+  { s with br := o.br.map (stLand b), wl := wlLand s.wl o.wl }
 
 /-- `.br`: one BatchRelease reconcile -/
 def stepBr (s : CS) : Option CS :=
@@ -168,16 +190,7 @@ def stepBr (s : CS) : Option CS :=
   | some b =>
     match Executor.reconcile (exBr b) (s.wl.map exWl) with
     | .panic => none
-    | .val o =>
-      let br' := o.br.map fun eb =>
-        { b with hasFinalizer := eb.hasFinalizer, st := eb.status, observedGeneration := b.generation,
-                 observedRolloutID := if eb.status.rolloutIDSame then b.rolloutID else b.observedRolloutID }
-      let wl' := match s.wl, o.wl with
-        | some w, some ew =>
-          some { w with partition := ew.partition, paused := ew.paused, owner := ew.owner,
-                        generation := if ew.partition ≠ w.partition ∨ ew.paused ≠ w.paused then w.generation + 1 else w.generation }
-        | w, _ => w
-      some { s with br := br', wl := wl' }
+    | .val o => some (landBr s b o)
 
 /-! ### environment and user -/
 
